@@ -363,3 +363,90 @@ def c09_4(run):
     if not n_with or not n_empty:
         raise Inconclusive(f'vacuity: blocks with data {n_with}, empty blocks {n_empty}')
     run.require_reached(*run.cur.reach)
+
+
+# ----------------------------------------------------------------------------------------------------------------- C09-5
+@obligation('C09', 'C09-5 decode_raw_blobs never fails: a blob from another namespace, an undecodable blob or a list with one ill-formed entry is dropped as a whole; everything else is kept in order')
+def c09_5(run):
+    def h_decompress(ctx):
+        b = ctx.ex.deref_val(ctx.st, ctx.args[0])
+        okv = b.attrs['decompress_ok']
+        return [(okv, (lambda s2: ok(s2.tr(b)))), (z3.Not(okv), (lambda s2: err(Obj('std::io::Error', kind='error'))))]
+
+    def h_decode(ctx):
+        b = ctx.ex.deref_val(ctx.st, ctx.args[0])
+        okv = b.attrs['decode_ok']
+
+        def mk(s2):
+            b2 = s2.tr(b)
+            lst = Obj(ctx.ret_ty and re.search(r'Result<(.*), ', ctx.ret_ty).group(1) or 'List')
+            a = ctx.ex.adts.lookup(lst.ty)
+            lst.fields[(None, a['fields'].index('entries'))] = M.new_vec('Vec', list(b2.attrs['entries']))
+            return ok(lst)
+        return [(okv, mk), (z3.Not(okv), (lambda s2: err(Obj('prost::DecodeError', kind='error'))))]
+
+    def h_try_from_raw(ctx):
+        raw = ctx.ex.deref_val(ctx.st, ctx.args[0])
+        okv = raw.attrs['wellformed']
+
+        def mk(s2):
+            o = Obj(re.search(r'Result<(.*), ', ctx.ret_ty).group(1), kind='opaque'); o.attrs['tag'] = s2.tr(raw).attrs['tag']
+            return ok(o)
+        return [(okv, mk), (z3.Not(okv), (lambda s2: err(Obj('Error', kind='error'))))]
+    same = lambda ctx: [(None, ctx.ex.deref_val(ctx.st, ctx.args[0]))]
+    hooks = [(re.compile(r'^(astria_core::brotli::)?decompress_bytes$'), h_decompress), (re.compile(r'(SubmittedMetadataList|SubmittedRollupDataList) as (prost::)?Message>::decode(::<.*>)?$'), h_decode),
+             (re.compile(r'(SubmittedMetadata|SubmittedRollupData)::try_from_raw$'), h_try_from_raw),
+             (re.compile(r'^<([\w:]+::)?Namespace as PartialEq>::eq$'), lambda ctx: [(None, ctx.ex.deref_val(ctx.st, ctx.args[0]) == ctx.ex.deref_val(ctx.st, ctx.args[1]))]),
+             (re.compile(r'^<Vec<u8> as Deref>::deref$|^<(bytes::)?Bytes as Deref>::deref$|as AsRef<\[u8\]>>::as_ref$'), same), (re.compile(r'^(telemetry::display::)?base64'), lambda ctx: [(None, Obj('b64'))]),
+             (re.compile(r'Result::<.*>::inspect_err::<'), same), (re.compile(r'::full_name$'), lambda ctx: [(None, Obj('String', kind='opaque'))])]
+    sc = dict(SCALARS2, **{'celestia_types::nmt::Namespace': 232, 'nmt::Namespace': 232, 'Namespace': 232, 'astria_core::celestia::Namespace': 232})
+    ex = loader.load(['astria-conductor', 'astria-core'], scalar_types=sc, hooks=hooks, dep_adts=['tendermint'])
+    f = ex.find(r'^(celestia::convert::)?decode_raw_blobs$')
+    shapes = [((), ()), ((1,), ()), ((2,), ()), ((1, 1), ()), ((), (1,)), ((), (2,)), ((1,), (1,)), ((0,), (1, 2))]
+    run.bound(blobs=f'(header blobs, rollup blobs) as lists of entries per blob: {shapes}; namespaces arbitrary', decoding='brotli decompression, protobuf decoding and try_from_raw are oracles that may fail independently')
+    n_done = 0
+    for hs, rs in shapes:
+        sns, rns = z3.BitVec('sequencer_namespace', 232), z3.BitVec('rollup_namespace', 232)
+        def mk_blobs(kind, spec):
+            out = []
+            for bi, n in enumerate(spec):
+                data = Obj('Vec<u8>', kind='opaque')
+                entries = []
+                for ei in range(n):
+                    r_ = Obj('raw-entry', kind='opaque'); r_.attrs['tag'] = f'{kind}{bi}e{ei}'; r_.attrs['wellformed'] = z3.Bool(f'{kind}{bi}e{ei}_wellformed')
+                    entries.append(r_)
+                data.attrs.update(decompress_ok=z3.Bool(f'{kind}{bi}_decompress_ok'), decode_ok=z3.Bool(f'{kind}{bi}_decode_ok'), entries=entries)
+                # celestia_types::Blob is not in the ADT tables: fields by declaration index (0 = namespace, 1 = data), as the MIR accesses them
+                blob = Obj('celestia_types::blob::Blob-verif'); blob.fields[(None, 0)] = z3.BitVec(f'{kind}{bi}_namespace', 232); blob.fields[(None, 1)] = data
+                out.append((blob, data, entries, z3.BitVec(f'{kind}{bi}_namespace', 232)))
+            return out
+        hb, rb = mk_blobs('h', hs), mk_blobs('r', rs)
+        raw = B.struct(ex, 'RawBlobs', celestia_height=z3.BitVec('celestia_height', 64), header_blobs=M.new_vec('Vec<Blob>', [b[0] for b in hb]), rollup_blobs=M.new_vec('Vec<Blob>', [b[0] for b in rb]))
+        st = ex.start(f, [raw, rns, sns])
+        for i, p in enumerate(run.explore(ex, st, allow_havoc=(r'^Arguments::|fmt::',))):
+            lab = f'[headers {hs}, rollup {rs}, path {i}]'
+            if p.kind != 'return':
+                run.prove(f'no panic {lab}', p.pc, z3.BoolVal(False), detail=p.info); continue
+            n_done += 1
+            res = ex.deref_val(p, p.result)
+            md = [ex.deref_val(p, x).attrs.get('tag') for x in B.fld(ex, p, res, 'metadata', 'Vec').attrs['items']]
+            rd = [ex.deref_val(p, x).attrs.get('tag') for x in B.fld(ex, p, res, 'rollup_data', 'Vec').attrs['items']]
+            run.sample({'headers': list(hs), 'rollup': list(rs), 'path': i, 'metadata': md, 'rollup_data': rd})
+            def expect(blobs, ns, got):
+                # got must be the concatenation, in blob order, of the entries of the blobs that pass every check
+                conds = []; pos = 0
+                def rec(bi, rest):
+                    if bi == len(blobs):
+                        return z3.BoolVal(rest == [])
+                    blob, data, entries, bns = blobs[bi]
+                    keep = z3.And(bns == ns, data.attrs['decompress_ok'], data.attrs['decode_ok'], *[e.attrs['wellformed'] for e in entries])
+                    tags = [e.attrs['tag'] for e in entries]
+                    kept = rec(bi + 1, rest[len(tags):]) if rest[:len(tags)] == tags else z3.BoolVal(False)
+                    dropped = rec(bi + 1, rest)
+                    return z3.Or(z3.And(keep, kept), z3.And(z3.Not(keep), dropped))
+                return rec(0, list(got))
+            run.prove(f'kept = exactly the entries of the blobs that are in the right namespace, decompress, decode and are entirely well-formed, in order; nothing else; no error {lab}', p.pc,
+                      z3.And(expect(hb, sns, md), expect(rb, rns, rd), B.fld(ex, p, res, 'celestia_height', 'u64') == z3.BitVec('celestia_height', 64)))
+    if not n_done:
+        raise Inconclusive('vacuity')
+    run.require_reached(*run.cur.reach)
